@@ -691,3 +691,120 @@ def run(ck, prog):
     _run_pre_stride(ck, prog)
     from sa import stride
     stride.run_rule(ck, prog, set(DIMENSION_FILES))
+
+
+# ------------------------------------------------------------------ transform: the copy-through loop skips exactly the declared categorical columns
+_run_pre_skipset = run
+
+
+def copy_through_skips_declared(ck, prog):
+    """Which input columns are copied through unchanged is decided by membership in col_idx_categorical - the declaration -
+    and by nothing derived from the data (a column with a single category expands to ONE indicator column: its output span is
+    1, like a pass-through column, so a span-based skip overwrites the all-ones indicator with the raw code).  Rule: some
+    test that gates the copy `res[r][new] = x[r][old]` (one of its edges reaches the copy within the iteration, the other
+    does not) compares / consults a value obtained from self.col_idx_categorical other than through find_new_idxs."""
+    rule, inst = "E1-gate", "OneHotEncoder::transform: the copy-through loop skips a column iff it is in col_idx_categorical"
+    try:
+        b = prog.one(r"^preprocessing::categorical::OneHotEncoder::transform$")
+    except AnchorError as e:
+        ck.violation(rule, inst, "OneHotEncoder::transform", "", expected="anchor exists", found=f"anchor vanished: {e}")
+        return
+    cx = BodyCtx.of(b)
+    res = cx.res
+
+    def declared(t, depth=0):
+        if depth > 40:
+            return False
+        if t[0] == "field" and t[2] == "col_idx_categorical":
+            return True
+        if t[0] == "call" and t[1].split("::")[-1] == "find_new_idxs":
+            return False
+        for x in t[1:]:
+            if isinstance(x, tuple):
+                if x and isinstance(x[0], str):
+                    if declared(x, depth + 1):
+                        return True
+                else:
+                    for y in x:
+                        if isinstance(y, tuple) and y and isinstance(y[0], str) and declared(y, depth + 1):
+                            return True
+        return False
+    copies = []
+    for bb, t in b.calls():
+        f = t.get("f")
+        if f and f["path"].split("::")[-1] == "set" and len(t["args"]) == 4:
+            v = res.operand(t["args"][3])
+            if v[0] == "call" and v[1].split("::")[-1] == "get" and v[2] and v[2][0][0] == "arg":
+                copies.append(bb)
+    if not copies:
+        ck.note(f"{inst}: no copy `res.set(r, new, x.get(r, old))` recognised: no instance")
+        return
+    be = guards.back_edges(b)
+    gates, decl = [], []
+    tests = [(c.bb, c.true_bb, c.false_bb, (c.lhs, c.rhs), c.where) for c in cx.cmps]
+    tests += [(bb, tb, fb, (term,), b.where(bb)) for (bb, term, tb, fb) in guards.bool_switches(b, res)]
+    for i, blk in enumerate(b.blocks):                          # `if let Some(..) = it.next()` style option tests
+        t = blk["term"]
+        if i in b.reach and t["k"] == "switch" and len(t["targets"]) == 1:
+            d = res.operand(t["o"])
+            if d[0] == "discr":
+                tests.append((i, t["targets"][0][1], t["otherwise"], (d,), b.where(i)))
+    for (bb, tb, fb, terms, where) in tests:
+        r1 = bool(b.reachable_from([tb], cut_edges=be) & set(copies))
+        r2 = bool(b.reachable_from([fb], cut_edges=be) & set(copies))
+        if r1 != r2 and any(b.dominates(bb, c) or True for c in copies):
+            # only tests inside the loop that contains the copy
+            gates.append(where)
+            if any(declared(t) for t in terms):
+                decl.append(where)
+    if decl:
+        ck.ok(rule, inst, b.path, decl[0], f"{len(gates)} gating test(s), {len(decl)} on values taken from col_idx_categorical")
+    else:
+        ck.violation(rule, inst, b.path, b.where(copies[0]), expected="a column is skipped exactly when its index is in self.col_idx_categorical",
+                     found=f"no test that gates the copy consults col_idx_categorical (gating tests at {gates[:3]}): the skip is decided by something else")
+
+
+def run(ck, prog):
+    _run_pre_skipset(ck, prog)
+    copy_through_skips_declared(ck, prog)
+
+
+EXPLANATION += (" transform: the copy-through of non-categorical columns is gated by a test on values taken from col_idx_categorical "
+                "(not by the output span, which is 1 for a single-category column too).")
+
+
+# ------------------------------------------------------------------ is_valid: a value is valid only if the category code represents it
+_run_pre_isvalid = run
+
+
+def is_valid_round_trips(ck, prog):
+    """transform rejects a value exactly when it is not its own category code.  to_category saturates (negative -> 0,
+    > 65535 -> 65535, NaN -> 0), so validity cannot be decided from the fractional part alone: the verdict depends on
+    to_category(self) (round trip) or on explicit range tests of self on both sides."""
+    rule = "E2-provenance"
+    bodies = prog.find(r"Categorizable>::is_valid$")
+    if not bodies:
+        ck.violation(rule, "Categorizable::is_valid exists", "is_valid", "", expected="anchor exists", found="anchor vanished")
+        return
+    for b in bodies:
+        ty = b.path.split(" as ")[0].lstrip("<")
+        inst = f"<{ty}>::is_valid depends on the category code of the value (round trip or two-sided range test)"
+        res = Resolver(b)
+        r = res.local(0)
+        subs = list(subterms(r))
+        rt = any(s[0] == "call" and s[1].split("::")[-1] == "to_category" for s in subs)
+        rng = any(s[0] == "call" and s[1].split("::")[-1] == "contains" for s in subs)
+        cmps = [s for s in subs if s[0] == "bin" and s[1] in ("Lt", "Le", "Gt", "Ge") and any(x == ("arg", 1, "self") or (x[0] == "arg" and x[1] == 1) for x in (s[2], s[3]))]
+        if rt or rng or len(cmps) >= 2:
+            ck.ok(rule, inst, b.path, f"{b.loc[0]}:{b.loc[1]}", "round trip through to_category" if rt else "explicit range test")
+        else:
+            ck.violation(rule, inst, b.path, f"{b.loc[0]}:{b.loc[1]}", expected="(to_category(self) as T - self).abs() < margin, or 0 <= self <= 65535 and integral",
+                         found=f"`{render(r)[:100]}` never consults the category code: integral values outside the code range count as valid and saturate to category 0 / 65535")
+
+
+def run(ck, prog):
+    _run_pre_isvalid(ck, prog)
+    is_valid_round_trips(ck, prog)
+
+
+EXPLANATION += " is_valid depends on to_category(self) (or on a two-sided range test): out-of-range integral values are not their own category code."
